@@ -4,7 +4,7 @@ from mc import core, det, domains, sse
 PROPERTY = 'C02'
 ENGINE = 'E1 bounded-exhaustive enumeration of (scheme, configuration point, profile) x adversarially close absent keywords'
 LEVEL = 'model_checking'
-DIRECTED_ADDITIONS = 'the whole universe of one-byte and two-byte keywords against databases of such keywords, NUL-prefixed stored/random keywords (known finding for SSE-1/SSE-2), keywords of a second database under the same key, KiB keywords'      # members added during the seeded-change campaign (DESIGN 7); counted under their own vacuity counters
+DIRECTED_ADDITIONS = 'every sequence of <= 3 (thorough: 4) searches over two indexes built by one scheme object under one key x four keywords (in the first only, in the second only, in both, in neither) that ends in an absent keyword, with the second index built before any search or after the first one, the whole universe of one-byte and two-byte keywords against databases of such keywords, NUL-prefixed stored/random keywords (known finding for SSE-1/SSE-2), keywords of a second database under the same key, KiB keywords'      # members added during the seeded-change campaign (DESIGN 7); counted under their own vacuity counters
 
 CHUNK = 40
 
@@ -26,7 +26,7 @@ def _describe(tier):
                 'empty result. non-trivial = absent keyword derived from a stored keyword.' % n,
         'bounds': 'N<=%d exhaustive over partitions; 3 stored keywords x 7 derivations + 5 others per database' % n,
         'assumptions': ['label/PRP collision of an absent keyword with a filler entry has probability <= |table| * 2^-64 per case'],
-        'must_be_nonzero': ['prefix', 'suffix', 'concat', 'plus-nul', 'lead-nul-stored', 'maxlen', 'other-db-same-key', 'keyword-universes', 'universe-absent-keywords'],
+        'must_be_nonzero': ['prefix', 'suffix', 'concat', 'plus-nul', 'lead-nul-stored', 'maxlen', 'other-db-same-key', 'keyword-universes', 'universe-absent-keywords', 'search-histories'],
     }
 
 
@@ -61,7 +61,76 @@ def units(tier, seed):
         us.append(('universe/%s/1' % name, {'kind': 'universe', 'scheme': name, 'width': 1, 'rounds': 4 if tier == 'quick' else 12}))
         if tier != 'quick' or not name.startswith('CGKO06'):
             us.append(('universe/%s/2' % name, {'kind': 'universe', 'scheme': name, 'width': 2, 'rounds': 1 if tier == 'quick' else 2}))
+    for name in sse.SCHEMES:
+        # search histories over two indexes built by one scheme object under one key (what an earlier search leaves behind in the
+        # scheme object, the key object or the index must not answer for a keyword the searched database does not hold)
+        us.append(('histories/%s' % name, {'kind': 'histories', 'scheme': name, 'depth': 3 if tier == 'quick' else 4}))
     return us
+
+
+def run_histories(r, seed, name, depth, only=None):
+    import itertools
+    cfg = sse.base_cfg(name)
+    idsize = cfg.get('param_identifier_size', 8)
+    L = sse.loader(name)
+    g = det.rng(seed, 'c02-histories', name)
+    kwl = min(6, sse.kw_limit(name, cfg))
+    wa, wb, wc, wd = [bytes([65 + i]) + g.randbytes(kwl - 1) for i in range(4)]
+    mk = lambda n: [g.randbytes(idsize) for _ in range(n)]
+    db1 = {wa: mk(2), wc: mk(1), bytes([70]) + g.randbytes(kwl - 1): mk(2)}        # 5 postings each: the two indexes have one shape
+    db2 = {wb: mk(2), wc: mk(2), bytes([71]) + g.randbytes(kwl - 1): mk(1)}
+    dbs = {1: db1, 2: db2}
+    ops = [(i, w) for i in (1, 2) for w in (wa, wb, wc, wd)]
+    names = {wa: 'only-in-1', wb: 'only-in-2', wc: 'in-both', wd: 'in-neither'}
+    cfg2 = sse.finalize_cfg(name, cfg, db1)
+    if sse.finalize_cfg(name, cfg, db2) != cfg2:
+        r.count('histories-skipped-config-differs')
+        return
+    # setup orders: both indexes before any search; the second index only after the first search
+    for late in (False, True):
+        for n in range(1, depth + 1):
+            for hist in itertools.product(range(len(ops)), repeat=n):
+                if only is not None and (list(hist), late) != only:
+                    continue
+                # a history is interesting only if it ends in a search of an absent keyword
+                i_last, w_last = ops[hist[-1]]
+                if w_last in dbs[i_last] or (late and (n < 2 or ops[hist[0]][0] == 2)):
+                    continue
+                case = {'scheme': name, 'history': list(hist), 'second_setup_after_first_search': late,
+                        'ops': ['search(edb%d, %s)' % (ops[h][0], names[ops[h][1]]) for h in hist]}
+                core.note_case(case)
+                det.seed_case(seed, PROPERTY, 'histories', name, hist, late)
+                r['states'] += 1
+                try:
+                    scheme = L.SSEScheme(cfg2)
+                    key = scheme.KeyGen()
+                    edbs = {1: scheme.EDBSetup(key, db1)}
+                    if not late:
+                        edbs[2] = scheme.EDBSetup(key, db2)
+                    r['transitions'] += 2
+                except Exception as e:
+                    r.count('setup-raises (C01\'s subject, skipped here)')
+                    return
+                r.count('search-histories')
+                try:
+                    for k, h in enumerate(hist):
+                        i, w = ops[h]
+                        if k == 1 and 2 not in edbs:
+                            edbs[2] = scheme.EDBSetup(key, db2)
+                        got = scheme.Search(edbs[i], scheme.TokenGen(key, w)).get_result_list()
+                        r['transitions'] += 2
+                        if w not in dbs[i]:
+                            r['evaluations'] += 1
+                            r['nontrivial'] += 1
+                            if len(got) != 0:
+                                r.v(PROPERTY, name, 'nonempty', 'after-earlier-searches/%s' % names[w], dict(case, step=k), 'empty result', got)
+                                r.outcome('nonempty-after-history')
+                                break
+                    else:
+                        r.outcome('empty/after-history')
+                except Exception as e:
+                    r.v(PROPERTY, name, 'search-raises', 'history:%s:%s' % (core.exc_site(e), type(e).__name__), case, 'empty result, no exception', core.exc_text(e))
+    r.sample({'scheme': name, 'search_histories': 'all sequences of <= %d searches over 2 indexes x 4 keywords ending in an absent keyword, two setup orders' % depth})
 
 
 def run_universe(r, seed, name, width, rounds, only_round=None):
@@ -193,6 +262,10 @@ def run_unit(p, tier, seed):
         run_universe(r, seed, p['scheme'], p['width'], p['rounds'])
         det.restore()
         return r
+    if p.get('kind') == 'histories':
+        run_histories(r, seed, p['scheme'], p['depth'])
+        det.restore()
+        return r
     name, label, cfg = p['scheme'], p['label'], p['cfg']
     cache = {}
     for i, (profile, kwlen, relation) in enumerate(case_list(name, label, cfg, tier)[p['lo']:p['hi']]):
@@ -209,6 +282,10 @@ def replay(case, seed):
         r = core.Result()
         run_universe(r, seed, case['scheme'], case['universe_width'], case['round'] + 1, only_round=case['round'])
         return [v for v in r['violations'] if core.dec(v['case']).get('keyword') == case.get('keyword')] or r['violations']
+    if 'history' in case:
+        r = core.Result()
+        run_histories(r, seed, case['scheme'], len(case['history']), only=(list(case['history']), case['second_setup_after_first_search']))
+        return r['violations']
     u = case.get('unit')
     if u:
         full = run_unit({'scheme': case['scheme'], 'label': case['label'], 'cfg': case['cfg'], 'lo': u['lo'], 'hi': u['lo'] + u['index'] + 1}, u['tier'], seed)
@@ -221,6 +298,6 @@ def replay(case, seed):
 ENV_VARIANTS = [{'name': 'python-O', 'flags': ['-O']}, {'name': 'home-unwritable', 'env': {'VERIF_HOME_UNWRITABLE': '1'}}]
 
 def variant_units(tier, seed, name):
-    pred = lambda uid, p: uid.endswith('/base/0') and p.get('kind') != 'universe' 
+    pred = lambda uid, p: uid.endswith('/base/0') and p.get('kind') is None
     return [u for u in units('quick', seed) if pred(u[0], u[1])]
 
